@@ -15,26 +15,70 @@ package io
 
 import (
 	"fmt"
+	"github.com/hprose/hprose-golang/v3/internal/convert"
 	"math"
 	"math/big"
 	"reflect"
+	"strconv"
 	"unsafe"
 
 	"github.com/modern-go/reflect2"
 )
 
 func (dec *Decoder) decodeLongAsInterface(p *interface{}) {
-	switch dec.LongType {
-	case LongTypeInt:
-		*p = dec.ReadInt()
-	case LongTypeUint:
-		*p = dec.ReadUint()
-	case LongTypeInt64:
-		*p = dec.ReadInt64()
-	case LongTypeUint64:
-		*p = dec.ReadUint64()
-	default:
+	if dec.LongType == LongTypeBigInt {
 		*p = dec.ReadBigInt()
+		return
+	}
+	// the setting names the type for the numbers it can hold; one it can not hold (a uint64
+	// beyond MaxInt64 under the default LongTypeInt, any longer number) is not wrapped into
+	// it: it comes as the next type that holds it exactly
+	text := convert.ToUnsafeString(dec.UnsafeUntil(TagSemicolon))
+	if len(text) <= 18 {
+		if i, err := strconv.ParseInt(text, 10, 64); err == nil {
+			switch dec.LongType {
+			case LongTypeInt:
+				if int64(int(i)) == i {
+					*p = int(i)
+					return
+				}
+			case LongTypeInt64:
+				*p = i
+				return
+			case LongTypeUint:
+				if i >= 0 && int64(uint(i)) == i {
+					*p = uint(i)
+					return
+				}
+			case LongTypeUint64:
+				if i >= 0 {
+					*p = uint64(i)
+					return
+				}
+			}
+		}
+	}
+	bi := dec.stringToBigInt(text, nil)
+	if bi == nil {
+		return
+	}
+	switch {
+	case (dec.LongType == LongTypeInt || dec.LongType == LongTypeInt64) && bi.IsInt64():
+		if dec.LongType == LongTypeInt && int64(int(bi.Int64())) == bi.Int64() {
+			*p = int(bi.Int64())
+		} else {
+			*p = bi.Int64()
+		}
+	case bi.IsUint64():
+		if dec.LongType == LongTypeUint && uint64(uint(bi.Uint64())) == bi.Uint64() {
+			*p = uint(bi.Uint64())
+		} else {
+			*p = bi.Uint64()
+		}
+	case bi.IsInt64():
+		*p = bi.Int64()
+	default:
+		*p = bi
 	}
 }
 
